@@ -105,6 +105,8 @@ class BEDPrinter(AbstractAssignmentPrinter):
         # alignments of reads having several assignment records whose line is already written
         self.printed_multimappers = set()
         self.output_file.write("#chrom\tchromStart\tchromEnd\tname\tscore\tstrand\tthickStart\tthickEnd\titemRgb\tblockCount\tblockSizes\tblockStarts\n")
+        # number of lines written before the first record (merge_files skips them in the per-chromosome files)
+        self.header_lines = 1
 
     def add_read_info(self, read_assignment):
         if read_assignment is None or read_assignment.assignment_type is None or \
@@ -228,6 +230,8 @@ class BasicTSVAssignmentPrinter(AbstractAssignmentPrinter):
                       "\tassignment_type\tassignment_events\texons\tadditional_info\n"
         self.output_file.write(additional_header)
         self.output_file.write(self.header)
+        # number of lines written before the first record (merge_files skips them in the per-chromosome files)
+        self.header_lines = (additional_header + self.header).count("\n")
         self.io_support = io_support
 
     @staticmethod
@@ -373,6 +377,8 @@ class SqantiTSVPrinter(AbstractAssignmentPrinter):
                       '\tpolyA_motif_found\tORF_seq\tratio_TSS\n'
         self.output_file.write(self.header)
         self.output_file.flush()
+        # number of lines written before the first record (merge_files skips them in the per-chromosome files)
+        self.header_lines = self.header.count("\n")
         self.io_support = io_support
 
     def add_read_info(self, read_assignment):
